@@ -127,6 +127,9 @@ func (vt *Model) decset(params [][]int) {
 		case 1049:
 			vt.decsc()
 			vt.activeScreen = vt.altScreen
+			// The alternate screen starts out cleared with the
+			// current background
+			vt.ed(2)
 			vt.mode.smcup = true
 			// Enable altScroll in the alt screen. This is only used
 			// if the application doesn't enable mouse
